@@ -653,27 +653,45 @@ def innermost_loop(fn, bb):
     return h, body
 
 
-def reach_with_flags(fn, start, avoid=frozenset(), stop=frozenset()):
-    """blocks reachable from `start` where switches on bool temporaries (the shape `matches!` / `&&` / `||` lower
-    to: `_t = const 0|1` in predecessor arms, then `switch _t`, possibly through a copy) only follow the edge
-    consistent with the literal assigned *on the path*; any other assignment to the temporary makes it unknown
-    again.  `avoid` blocks are not entered; `stop` blocks are reported but not left.
-    State = (block, frozenset of (temp, value))."""
+def reach_with_flags(fn, start, avoid=frozenset(), stop=frozenset(), prog=None):
+    """blocks reachable from `start`, pruning switch edges that contradict what the path itself established:
+    (a) bool temporaries (the shape `matches!` / `&&` / `||` lower to: `_t = const 0|1` in predecessor arms, then
+    `switch _t`, possibly through a copy) — only the edge consistent with the literal assigned on the path;
+    (b) with `prog`: enum locals built on the path by an aggregate (`_o = Option::Some(..)` / `None`, `Ok`/`Err`,
+    any fieldless or tuple variant) — a later `switch discr(_o)` only follows that variant's edge.
+    Any other assignment to a tracked local makes it unknown again.  `avoid` blocks are not entered; `stop`
+    blocks are reported but not left.  State = (block, frozenset of (local, value))."""
     def lit(rv):
         return rv["r"] == "use" and rv["op"].get("k") == "const" and rv["op"].get("ty") == "bool" and rv["op"].get("val") is not None
+    vcache = {}
+    def variant_index(rv):
+        if prog is None or rv["r"] != "agg" or rv.get("kind") != "adt" or not rv.get("variant"):
+            return None
+        nm = rv["name"]
+        if nm not in vcache:
+            try:
+                vcache[nm] = {v: k for k, v in variant_names(prog, nm).items()}
+            except Exception:
+                vcache[nm] = {}
+        return vcache[nm].get(rv["variant"]) if len(vcache[nm]) > 1 else None
     tracked = set()
     for i, j, pl, rv, sp in fn.assigns():
-        if len(pl) == 1 and lit(rv):
+        if len(pl) == 1 and (lit(rv) or variant_index(rv) is not None):
             tracked.add(pl[0])
     changed = True
-    while changed:  # copies of tracked temporaries are tracked too
+    while changed:  # copies (and discriminant reads) of tracked locals are tracked too
         changed = False
         for i, j, pl, rv, sp in fn.assigns():
-            if len(pl) == 1 and pl[0] not in tracked and rv["r"] == "use" and rv["op"].get("k") in ("copy", "move"):
+            if len(pl) != 1 or pl[0] in tracked:
+                continue
+            src = None
+            if rv["r"] == "use" and rv["op"].get("k") in ("copy", "move"):
                 src = op_place(rv["op"])
-                if len(src) == 1 and src[0] in tracked:
-                    tracked.add(pl[0])
-                    changed = True
+            elif rv["r"] == "discr":
+                src = rv["p"]
+            if src is not None and len(src) == 1 and src[0] in tracked:
+                tracked.add(pl[0])
+                changed = True
     seen = set()
     out = set()
     work = [(start, frozenset())]
@@ -694,10 +712,17 @@ def reach_with_flags(fn, start, avoid=frozenset(), stop=frozenset()):
                 e.pop(l, None)
                 continue
             rv = st["rv"]
+            src = None
+            if rv["r"] == "use" and rv["op"].get("k") in ("copy", "move"):
+                src = op_place(rv["op"])
+            elif rv["r"] == "discr":
+                src = rv["p"]
             if lit(rv):
                 e[l] = int(rv["op"]["val"])
-            elif rv["r"] == "use" and rv["op"].get("k") in ("copy", "move") and len(op_place(rv["op"])) == 1 and op_place(rv["op"])[0] in e:
-                e[l] = e[op_place(rv["op"])[0]]
+            elif variant_index(rv) is not None:
+                e[l] = variant_index(rv)
+            elif src is not None and len(src) == 1 and src[0] in e:
+                e[l] = e[src[0]]
             else:
                 e.pop(l, None)
         t = fn.blocks[b]["term"]
